@@ -81,7 +81,9 @@ static void lw_note_width(void *q) { pthread_mutex_lock(&lw_mu);
 // wants then, so _exit is routed through a dump (the queues are reported as not quiescent: they are not)
 static const char *lw_dump_path = "/dev/null";
 static void lw_dump(const char *path);
-static void lw_exit(int code) { static _Atomic int once; if (!atomic_exchange(&once, 1)) lw_dump(lw_dump_path); _exit(code); }
+static void lw_exit(int code) { static _Atomic int once;
+	if (atomic_exchange(&once, 1)) for (;;) pause();     // a second watchdog thread got here too: the first one is dumping and will leave
+	lw_dump(lw_dump_path); _exit(code); }
 #define main lanes_main
 #define dv_install(seed, permille) lw_install(seed, permille)
 #define _exit(code) lw_exit(code)
@@ -113,7 +115,9 @@ static void *x_producer(void *a) { x_work_t *w = (x_work_t *)a; uint64_t r = w->
 static void x_expect(const char *prop, long want) {
 	// progress-based, never elapsed-time based: give up only when the count has not moved for 10 s (a loaded machine is slow, not stuck)
 	long last = atomic_load(&x_ran); int idle = 0;
-	while (atomic_load(&x_ran) < want && idle < 20000) { usleep(500); long v = atomic_load(&x_ran); if (v != last) { last = v; idle = 0; } else idle++; }
+	// (it keeps the scenario watchdog quiet meanwhile: this wait IS the progress check here, and its message says what is missing)
+	while (atomic_load(&x_ran) < want && idle < 20000) { usleep(500); atomic_fetch_add(&progress, 1);
+		long v = atomic_load(&x_ran); if (v != last) { last = v; idle = 0; } else idle++; }
 	if (atomic_load(&x_ran) != want) FAIL(prop, "%ld of %ld items ran (no further item ran for 10 s)", atomic_load(&x_ran), want);
 }
 static void scn_suspend_resume(int scale) {
